@@ -387,3 +387,335 @@ package core
 //@ func NewManagedThread
 //@   modifies nothing
 //@   ensures r0 != nil && fresh(r0)
+
+// ---------------------------------------------------------------------------------------------
+// C13: extension automata. Tables written from the property: register, then next ... ; init error only between
+// register and the first next; exit error any time after register; both final (repeats are no-ops); every other
+// call is refused with ErrNotAllowed and changes neither the state nor any barrier.
+// ---------------------------------------------------------------------------------------------
+
+//@ func (*disallowEverything).Register
+//@   modifies nothing
+//@   ensures [refused] r0 == ErrNotAllowed
+//@ func (*disallowEverything).Ready
+//@   modifies nothing
+//@   ensures [refused] r0 == ErrNotAllowed
+//@ func (*disallowEverything).InitError
+//@   modifies nothing
+//@   ensures [refused] r0 == ErrNotAllowed
+//@ func (*disallowEverything).ExitError
+//@   modifies nothing
+//@   ensures [refused] r0 == ErrNotAllowed
+//@ func (*disallowEverything).ShutdownFailed
+//@   modifies nothing
+//@   ensures [refused] r0 == ErrNotAllowed
+//@ func (*disallowEverything).Exited
+//@   modifies nothing
+//@   ensures [refused] r0 == ErrNotAllowed
+//@ func (*disallowEverything).LaunchError
+//@   modifies nothing
+//@   ensures [refused] r0 == ErrNotAllowed
+
+// only INVOKE and SHUTDOWN may be subscribed, SHUTDOWN only by external extensions
+//@ func ValidateExternalAgentEvent
+//@   modifies nothing
+//@   ensures [allow-list] (e == "INVOKE" || e == "SHUTDOWN" ==> r0 == nil) && (e != "INVOKE" && e != "SHUTDOWN" ==> r0 == errInvalidEventType)
+//@ func ValidateInternalAgentEvent
+//@   modifies nothing
+//@   ensures [allow-list] (e == "INVOKE" ==> r0 == nil) && (e == "SHUTDOWN" ==> r0 == errEventNotSupportedForInternalAgent) && (e != "INVOKE" && e != "SHUTDOWN" ==> r0 == errInvalidEventType)
+
+//@ monitor ExternalAgent s
+//@   lock s.ManagedThread
+//@   waitcall SuspendUnsafe
+//@   protects currentState, stateLastModified, errorType, events
+//@   ownsmap events
+//@   invariant [state-is-one-of-nine] extValid(s)
+
+//@ spec extValid(s *ExternalAgent) bool = (s.currentState == s.StartedState || s.currentState == s.RegisteredState || s.currentState == s.ReadyState || s.currentState == s.RunningState || s.currentState == s.InitErrorState || s.currentState == s.ExitErrorState || s.currentState == s.ShutdownFailedState || s.currentState == s.ExitedState || s.currentState == s.LaunchErrorState) && s.events != nil
+//@ spec extWired(s *ExternalAgent) bool = typeis(s.ManagedThread, *ManagedThread) && ref(s.ManagedThread) != 0 && typeis(s.StartedState, *ExternalAgentStartedState) && s.StartedState.(*ExternalAgentStartedState).agent == s && typeis(s.RegisteredState, *ExternalAgentRegisteredState) && s.RegisteredState.(*ExternalAgentRegisteredState).agent == s && typeis(s.ReadyState, *ExternalAgentReadyState) && s.ReadyState.(*ExternalAgentReadyState).agent == s && typeis(s.RunningState, *ExternalAgentRunningState) && s.RunningState.(*ExternalAgentRunningState).agent == s && typeis(s.InitErrorState, *ExternalAgentInitErrorState) && typeis(s.ExitErrorState, *ExternalAgentExitErrorState) && typeis(s.ShutdownFailedState, *ExternalAgentShutdownFailedState) && typeis(s.ExitedState, *ExternalAgentExitedState) && typeis(s.LaunchErrorState, *ExternalAgentLaunchErrorState)
+//@ spec extFlows(s *ExternalAgent) bool = isInitFlow(s.StartedState.(*ExternalAgentStartedState).initFlow) && s.RegisteredState.(*ExternalAgentRegisteredState).initFlow == s.StartedState.(*ExternalAgentStartedState).initFlow && isInvokeFlow(s.RunningState.(*ExternalAgentRunningState).invokeFlow) && flowsDisjoint(s.StartedState.(*ExternalAgentStartedState).initFlow.(*initFlowSynchronizationImpl), s.RunningState.(*ExternalAgentRunningState).invokeFlow.(*invokeFlowSynchronizationImpl))
+//@ spec flowsDisjoint(i *initFlowSynchronizationImpl, v *invokeFlowSynchronizationImpl) bool = ref(i.agentReadyGate) != ref(v.agentReadyGate) && ref(i.agentReadyGate) != ref(v.runtimeReadyGate) && ref(i.agentReadyGate) != ref(v.runtimeResponseGate) && ref(i.externalAgentsRegisteredGate) != ref(v.agentReadyGate) && ref(i.externalAgentsRegisteredGate) != ref(v.runtimeReadyGate) && ref(i.externalAgentsRegisteredGate) != ref(v.runtimeResponseGate) && ref(i.runtimeReadyGate) != ref(v.agentReadyGate) && ref(i.runtimeReadyGate) != ref(v.runtimeReadyGate) && ref(i.runtimeReadyGate) != ref(v.runtimeResponseGate) && ref(i.runtimeRestoreReadyGate) != ref(v.agentReadyGate) && ref(i.runtimeRestoreReadyGate) != ref(v.runtimeReadyGate) && ref(i.runtimeRestoreReadyGate) != ref(v.runtimeResponseGate)
+//@ spec extInitFlow(s *ExternalAgent) *initFlowSynchronizationImpl = s.StartedState.(*ExternalAgentStartedState).initFlow.(*initFlowSynchronizationImpl)
+//@ spec extInvokeFlow(s *ExternalAgent) *invokeFlowSynchronizationImpl = s.RunningState.(*ExternalAgentRunningState).invokeFlow.(*invokeFlowSynchronizationImpl)
+//@ spec extGatesUntouched(s *ExternalAgent) bool = unchanged(gateOf(extInitFlow(s).agentReadyGate).arrived, gateOf(extInitFlow(s).externalAgentsRegisteredGate).arrived, gateOf(extInvokeFlow(s).agentReadyGate).arrived)
+//@ spec extRefused(s *ExternalAgent, r error) bool = r == ErrNotAllowed && unchanged(s.currentState, s.stateLastModified, s.errorType) && extGatesUntouched(s)
+
+//@ typeinv ExternalAgent s
+//@   inv extWired(s)
+//@   inv extFlows(s)
+//@ typeinv ExternalAgentStartedState s
+//@   inv s.agent != nil && extWired(s.agent) && extFlows(s.agent) && s.agent.StartedState == iface(s)
+//@ typeinv ExternalAgentRegisteredState s
+//@   inv s.agent != nil && extWired(s.agent) && extFlows(s.agent) && s.agent.RegisteredState == iface(s)
+//@ typeinv ExternalAgentReadyState s
+//@   inv s.agent != nil && extWired(s.agent) && extFlows(s.agent) && s.agent.ReadyState == iface(s)
+//@ typeinv ExternalAgentRunningState s
+//@   inv s.agent != nil && extWired(s.agent) && extFlows(s.agent) && s.agent.RunningState == iface(s)
+
+//@ func (*ExternalAgent).setStateUnsafe
+//@   requires held(s)
+//@   modifies s.currentState, s.stateLastModified
+//@   ensures [set] s.currentState == state
+
+//@ func (*ExternalAgent).subscribeUnsafe
+//@   requires held(s) && s.events != nil
+//@   modifies mapof(s.events)
+//@   ensures [valid-subscribed] e == "INVOKE" || e == "SHUTDOWN" ==> r0 == nil && has(s.events, e)
+//@   ensures [invalid-refused] e != "INVOKE" && e != "SHUTDOWN" ==> r0 == errInvalidEventType && (forall k Event :: has(s.events, k) == old(has(s.events, k)))
+//@   ensures [only-adds] forall k Event :: k != e ==> has(s.events, k) == old(has(s.events, k))
+
+//@ func (*ExternalAgentStartedState).Register
+//@   requires held(s.agent) && extValid(s.agent)
+//@   modifies s.agent.currentState, s.agent.stateLastModified, mapof(s.agent.events), extInitFlow(s.agent).externalAgentsRegisteredGate.(*gateImpl).arrived
+//@   ensures [registered] r0 == nil ==> s.agent.currentState == s.agent.RegisteredState && (forall i int :: 0 <= i && i < len(events) ==> (events[i] == "INVOKE" || events[i] == "SHUTDOWN"))
+//@   ensures [arrives-register-gate-once] r0 == nil ==> gateOf(extInitFlow(s.agent).externalAgentsRegisteredGate).arrived <= old(gateOf(extInitFlow(s.agent).externalAgentsRegisteredGate).arrived) + 1
+//@   ensures [invalid-event-refused] r0 != nil ==> r0 == errInvalidEventType && unchanged(s.agent.currentState, gateOf(extInitFlow(s.agent).externalAgentsRegisteredGate).arrived)
+//@   ensures [state-stays-valid] extValid(s.agent)
+//@   loop range events: invariant unchanged(s.agent.currentState, gateOf(extInitFlow(s.agent).externalAgentsRegisteredGate).arrived) && extValid(s.agent) && held(s.agent) && 0 <= rangeindex + 1 && rangeindex + 1 <= len(events) && (forall i int :: 0 <= i && i <= rangeindex ==> (events[i] == "INVOKE" || events[i] == "SHUTDOWN"))
+
+//@ func (*ExternalAgentStartedState).LaunchError
+//@   requires held(s.agent) && extValid(s.agent)
+//@   modifies s.agent.currentState, s.agent.stateLastModified, s.agent.errorType
+//@   ensures [to-launch-error] r0 == nil && s.agent.currentState == s.agent.LaunchErrorState
+//@   ensures [state-stays-valid] extValid(s.agent)
+
+//@ func (*ExternalAgentRegisteredState).Ready
+//@   requires held(s.agent) && extValid(s.agent)
+//@   modifies s.agent.currentState, s.agent.stateLastModified, s.agent.errorType, mapof(s.agent.events), all(gateImpl.arrived)
+//@   ensures [parks-then-runs] r0 == nil ==> s.agent.currentState == s.agent.RunningState
+//@   ensures [arrives-init-ready-gate] gateOf(extInitFlow(s.agent).agentReadyGate).arrived <= old(gateOf(extInitFlow(s.agent).agentReadyGate).arrived) + 1 && unchanged(gateOf(extInvokeFlow(s.agent).agentReadyGate).arrived, gateOf(extInitFlow(s.agent).externalAgentsRegisteredGate).arrived)
+//@   ensures [state-stays-valid] extValid(s.agent) && held(s.agent)
+//@ func (*ExternalAgentRegisteredState).InitError
+//@   requires held(s.agent) && extValid(s.agent)
+//@   modifies s.agent.currentState, s.agent.stateLastModified, s.agent.errorType
+//@   ensures [to-init-error] r0 == nil && s.agent.currentState == s.agent.InitErrorState && s.agent.errorType == errorType
+//@   ensures [state-stays-valid] extValid(s.agent)
+//@ func (*ExternalAgentRegisteredState).ExitError
+//@   requires held(s.agent) && extValid(s.agent)
+//@   modifies s.agent.currentState, s.agent.stateLastModified, s.agent.errorType
+//@   ensures [to-exit-error] r0 == nil && s.agent.currentState == s.agent.ExitErrorState && s.agent.errorType == errorType
+//@   ensures [state-stays-valid] extValid(s.agent)
+//@ func (*ExternalAgentReadyState).ExitError
+//@   requires held(s.agent) && extValid(s.agent)
+//@   modifies s.agent.currentState, s.agent.stateLastModified, s.agent.errorType
+//@   ensures [to-exit-error] r0 == nil && s.agent.currentState == s.agent.ExitErrorState && s.agent.errorType == errorType
+//@   ensures [state-stays-valid] extValid(s.agent)
+//@ func (*ExternalAgentRunningState).Ready
+//@   requires held(s.agent) && extValid(s.agent)
+//@   modifies s.agent.currentState, s.agent.stateLastModified, s.agent.errorType, mapof(s.agent.events), all(gateImpl.arrived)
+//@   ensures [parks-then-runs] r0 == nil ==> s.agent.currentState == s.agent.RunningState
+//@   ensures [arrives-invoke-ready-gate] gateOf(extInvokeFlow(s.agent).agentReadyGate).arrived <= old(gateOf(extInvokeFlow(s.agent).agentReadyGate).arrived) + 1 && unchanged(gateOf(extInitFlow(s.agent).agentReadyGate).arrived, gateOf(extInitFlow(s.agent).externalAgentsRegisteredGate).arrived)
+//@   ensures [state-stays-valid] extValid(s.agent) && held(s.agent)
+//@ func (*ExternalAgentRunningState).ExitError
+//@   requires held(s.agent) && extValid(s.agent)
+//@   modifies s.agent.currentState, s.agent.stateLastModified, s.agent.errorType
+//@   ensures [to-exit-error] r0 == nil && s.agent.currentState == s.agent.ExitErrorState && s.agent.errorType == errorType
+//@   ensures [state-stays-valid] extValid(s.agent)
+//@ func (*ExternalAgentRunningState).ShutdownFailed
+//@   requires held(s.agent) && extValid(s.agent)
+//@   modifies s.agent.currentState, s.agent.stateLastModified
+//@   ensures [to-shutdown-failed] r0 == nil && s.agent.currentState == s.agent.ShutdownFailedState
+//@   ensures [state-stays-valid] extValid(s.agent)
+//@ func (*ExternalAgentRunningState).Exited
+//@   requires held(s.agent) && extValid(s.agent)
+//@   modifies s.agent.currentState, s.agent.stateLastModified
+//@   ensures [to-exited] r0 == nil && s.agent.currentState == s.agent.ExitedState
+//@   ensures [state-stays-valid] extValid(s.agent)
+//@ func (*ExternalAgentInitErrorState).InitError
+//@   modifies nothing
+//@   ensures [repeat-is-noop] r0 == nil
+//@ func (*ExternalAgentExitErrorState).ExitError
+//@   modifies nothing
+//@   ensures [repeat-is-noop] r0 == nil
+
+// the agent object: each call equals the row of the current state
+//@ func (*ExternalAgent).Register
+//@   modifies s.currentState, s.stateLastModified, mapof(s.events), extInitFlow(s).externalAgentsRegisteredGate.(*gateImpl).arrived
+//@   ensures [legal-from-started] old(s.currentState) == s.StartedState && r0 == nil ==> s.currentState == s.RegisteredState && (forall i int :: 0 <= i && i < len(events) ==> (events[i] == "INVOKE" || events[i] == "SHUTDOWN"))
+//@   ensures [invalid-events-change-nothing] old(s.currentState) == s.StartedState && r0 != nil ==> r0 == errInvalidEventType && unchanged(s.currentState, gateOf(extInitFlow(s).externalAgentsRegisteredGate).arrived)
+//@   ensures [refused-otherwise] old(s.currentState) != s.StartedState ==> extRefused(s, r0) && (forall k Event :: has(s.events, k) == old(has(s.events, k)))
+//@ func (*ExternalAgent).Ready
+//@   modifies s.currentState, s.stateLastModified, s.errorType, mapof(s.events), all(gateImpl.arrived)
+//@   ensures [next-returns-running] r0 == nil ==> s.currentState == s.RunningState
+//@   ensures [legal-only-from-registered-or-running] old(s.currentState) != s.RegisteredState && old(s.currentState) != s.RunningState ==> extRefused(s, r0)
+//@ func (*ExternalAgent).InitError
+//@   modifies s.currentState, s.stateLastModified, s.errorType
+//@   ensures [legal-from-registered] old(s.currentState) == s.RegisteredState ==> r0 == nil && s.currentState == s.InitErrorState && s.errorType == errorType
+//@   ensures [repeat-keeps-first] old(s.currentState) == s.InitErrorState ==> r0 == nil && unchanged(s.currentState, s.errorType)
+//@   ensures [refused-otherwise] old(s.currentState) != s.RegisteredState && old(s.currentState) != s.InitErrorState ==> extRefused(s, r0)
+//@ func (*ExternalAgent).ExitError
+//@   modifies s.currentState, s.stateLastModified, s.errorType
+//@   ensures [legal-after-register] old(s.currentState) == s.RegisteredState || old(s.currentState) == s.ReadyState || old(s.currentState) == s.RunningState ==> r0 == nil && s.currentState == s.ExitErrorState && s.errorType == errorType
+//@   ensures [repeat-keeps-first] old(s.currentState) == s.ExitErrorState ==> r0 == nil && unchanged(s.currentState, s.errorType)
+//@   ensures [refused-otherwise] old(s.currentState) == s.StartedState || old(s.currentState) == s.InitErrorState || old(s.currentState) == s.ShutdownFailedState || old(s.currentState) == s.ExitedState || old(s.currentState) == s.LaunchErrorState ==> extRefused(s, r0)
+//@ func (*ExternalAgent).ShutdownFailed
+//@   modifies s.currentState, s.stateLastModified
+//@   ensures [legal-from-running] old(s.currentState) == s.RunningState ==> r0 == nil && s.currentState == s.ShutdownFailedState
+//@   ensures [refused-otherwise] old(s.currentState) != s.RunningState ==> extRefused(s, r0)
+//@ func (*ExternalAgent).Exited
+//@   modifies s.currentState, s.stateLastModified
+//@   ensures [legal-from-running] old(s.currentState) == s.RunningState ==> r0 == nil && s.currentState == s.ExitedState
+//@   ensures [refused-otherwise] old(s.currentState) != s.RunningState ==> extRefused(s, r0)
+//@ func (*ExternalAgent).LaunchError
+//@   modifies s.currentState, s.stateLastModified, s.errorType
+//@   ensures [legal-from-started] old(s.currentState) == s.StartedState ==> r0 == nil && s.currentState == s.LaunchErrorState
+//@   ensures [refused-otherwise] old(s.currentState) != s.StartedState ==> extRefused(s, r0)
+//@ func (*ExternalAgent).GetState
+//@   modifies nothing
+//@   ensures [current] r0 == s.currentState
+//@ func (*ExternalAgent).IsSubscribed
+//@   modifies nothing
+//@   ensures [membership] r0 <==> has(s.events, e)
+//@ func (*ExternalAgent).ErrorType
+//@   modifies nothing
+//@   ensures r0 == s.errorType
+
+//@ func NewExternalAgent
+//@   requires isInitFlow(initFlow) && isInvokeFlow(invokeFlow) && flowsDisjoint(initFlow.(*initFlowSynchronizationImpl), invokeFlow.(*invokeFlowSynchronizationImpl))
+//@   modifies nothing
+//@   ensures [fresh-started] r0 != nil && fresh(r0) && r0.currentState == r0.StartedState && r0.Name == name && r0.errorType == ""
+//@   ensures [wired] extWired(r0) && extFlows(r0) && extInitFlow(r0) == initFlow.(*initFlowSynchronizationImpl) && extInvokeFlow(r0) == invokeFlow.(*invokeFlowSynchronizationImpl)
+//@   ensures [no-subscriptions] r0.events != nil && (forall k Event :: !has(r0.events, k))
+
+// --- internal extensions: same automaton without SHUTDOWN, launch and exit bookkeeping; register makes no barrier arrival ---
+//@ monitor InternalAgent s
+//@   lock s.ManagedThread
+//@   waitcall SuspendUnsafe
+//@   protects currentState, stateLastModified, errorType, events
+//@   ownsmap events
+//@   invariant [state-is-one-of-six] intValid(s)
+
+//@ spec intValid(s *InternalAgent) bool = (s.currentState == s.StartedState || s.currentState == s.RegisteredState || s.currentState == s.ReadyState || s.currentState == s.RunningState || s.currentState == s.InitErrorState || s.currentState == s.ExitErrorState) && s.events != nil
+//@ spec intWired(s *InternalAgent) bool = typeis(s.ManagedThread, *ManagedThread) && ref(s.ManagedThread) != 0 && typeis(s.StartedState, *InternalAgentStartedState) && s.StartedState.(*InternalAgentStartedState).agent == s && typeis(s.RegisteredState, *InternalAgentRegisteredState) && s.RegisteredState.(*InternalAgentRegisteredState).agent == s && typeis(s.ReadyState, *InternalAgentReadyState) && s.ReadyState.(*InternalAgentReadyState).agent == s && typeis(s.RunningState, *InternalAgentRunningState) && s.RunningState.(*InternalAgentRunningState).agent == s && typeis(s.InitErrorState, *InternalAgentInitErrorState) && typeis(s.ExitErrorState, *InternalAgentExitErrorState)
+//@ spec intFlows(s *InternalAgent) bool = isInitFlow(s.RegisteredState.(*InternalAgentRegisteredState).initFlow) && isInvokeFlow(s.RunningState.(*InternalAgentRunningState).invokeFlow) && flowsDisjoint(s.RegisteredState.(*InternalAgentRegisteredState).initFlow.(*initFlowSynchronizationImpl), s.RunningState.(*InternalAgentRunningState).invokeFlow.(*invokeFlowSynchronizationImpl))
+//@ spec intInitFlow(s *InternalAgent) *initFlowSynchronizationImpl = s.RegisteredState.(*InternalAgentRegisteredState).initFlow.(*initFlowSynchronizationImpl)
+//@ spec intInvokeFlow(s *InternalAgent) *invokeFlowSynchronizationImpl = s.RunningState.(*InternalAgentRunningState).invokeFlow.(*invokeFlowSynchronizationImpl)
+//@ spec intGatesUntouched(s *InternalAgent) bool = unchanged(gateOf(intInitFlow(s).agentReadyGate).arrived, gateOf(intInitFlow(s).externalAgentsRegisteredGate).arrived, gateOf(intInvokeFlow(s).agentReadyGate).arrived)
+//@ spec intRefused(s *InternalAgent, r error) bool = r == ErrNotAllowed && unchanged(s.currentState, s.stateLastModified, s.errorType) && intGatesUntouched(s)
+
+//@ typeinv InternalAgent s
+//@   inv intWired(s)
+//@   inv intFlows(s)
+//@ typeinv InternalAgentStartedState s
+//@   inv s.agent != nil && intWired(s.agent) && intFlows(s.agent) && s.agent.StartedState == iface(s)
+//@ typeinv InternalAgentRegisteredState s
+//@   inv s.agent != nil && intWired(s.agent) && intFlows(s.agent) && s.agent.RegisteredState == iface(s)
+//@ typeinv InternalAgentReadyState s
+//@   inv s.agent != nil && intWired(s.agent) && intFlows(s.agent) && s.agent.ReadyState == iface(s)
+//@ typeinv InternalAgentRunningState s
+//@   inv s.agent != nil && intWired(s.agent) && intFlows(s.agent) && s.agent.RunningState == iface(s)
+
+//@ func (*InternalAgent).setStateUnsafe
+//@   requires held(s)
+//@   modifies s.currentState, s.stateLastModified
+//@   ensures [set] s.currentState == state
+
+//@ func (*InternalAgent).subscribeUnsafe
+//@   requires held(s) && s.events != nil
+//@   modifies mapof(s.events)
+//@   ensures [valid-subscribed] e == "INVOKE" ==> r0 == nil && has(s.events, e)
+//@   ensures [invalid-refused] e != "INVOKE" ==> r0 != nil && (e == "SHUTDOWN" ==> r0 == errEventNotSupportedForInternalAgent) && (e != "SHUTDOWN" ==> r0 == errInvalidEventType) && (forall k Event :: has(s.events, k) == old(has(s.events, k)))
+//@   ensures [only-adds] forall k Event :: k != e ==> has(s.events, k) == old(has(s.events, k))
+
+//@ func (*InternalAgentStartedState).Register
+//@   requires held(s.agent) && intValid(s.agent)
+//@   modifies s.agent.currentState, s.agent.stateLastModified, mapof(s.agent.events)
+//@   ensures [registered] r0 == nil ==> s.agent.currentState == s.agent.RegisteredState && (forall i int :: 0 <= i && i < len(events) ==> events[i] == "INVOKE")
+//@   ensures [no-gate-arrival] unchanged(gateOf(intInitFlow(s.agent).externalAgentsRegisteredGate).arrived)
+//@   ensures [invalid-event-refused] r0 != nil ==> (r0 == errInvalidEventType || r0 == errEventNotSupportedForInternalAgent) && unchanged(s.agent.currentState, gateOf(intInitFlow(s.agent).externalAgentsRegisteredGate).arrived)
+//@   ensures [state-stays-valid] intValid(s.agent)
+//@   loop range events: invariant unchanged(s.agent.currentState, gateOf(intInitFlow(s.agent).externalAgentsRegisteredGate).arrived) && intValid(s.agent) && held(s.agent) && 0 <= rangeindex + 1 && rangeindex + 1 <= len(events) && (forall i int :: 0 <= i && i <= rangeindex ==> events[i] == "INVOKE")
+
+//@ func (*InternalAgentRegisteredState).Ready
+//@   requires held(s.agent) && intValid(s.agent)
+//@   modifies s.agent.currentState, s.agent.stateLastModified, s.agent.errorType, mapof(s.agent.events), all(gateImpl.arrived)
+//@   ensures [parks-then-runs] r0 == nil ==> s.agent.currentState == s.agent.RunningState
+//@   ensures [arrives-init-ready-gate] gateOf(intInitFlow(s.agent).agentReadyGate).arrived <= old(gateOf(intInitFlow(s.agent).agentReadyGate).arrived) + 1 && unchanged(gateOf(intInvokeFlow(s.agent).agentReadyGate).arrived, gateOf(intInitFlow(s.agent).externalAgentsRegisteredGate).arrived)
+//@   ensures [state-stays-valid] intValid(s.agent) && held(s.agent)
+//@ func (*InternalAgentRegisteredState).InitError
+//@   requires held(s.agent) && intValid(s.agent)
+//@   modifies s.agent.currentState, s.agent.stateLastModified, s.agent.errorType
+//@   ensures [to-init-error] r0 == nil && s.agent.currentState == s.agent.InitErrorState && s.agent.errorType == errorType
+//@   ensures [state-stays-valid] intValid(s.agent)
+//@ func (*InternalAgentRegisteredState).ExitError
+//@   requires held(s.agent) && intValid(s.agent)
+//@   modifies s.agent.currentState, s.agent.stateLastModified, s.agent.errorType
+//@   ensures [to-exit-error] r0 == nil && s.agent.currentState == s.agent.ExitErrorState && s.agent.errorType == errorType
+//@   ensures [state-stays-valid] intValid(s.agent)
+//@ func (*InternalAgentReadyState).ExitError
+//@   requires held(s.agent) && intValid(s.agent)
+//@   modifies s.agent.currentState, s.agent.stateLastModified, s.agent.errorType
+//@   ensures [to-exit-error] r0 == nil && s.agent.currentState == s.agent.ExitErrorState && s.agent.errorType == errorType
+//@   ensures [state-stays-valid] intValid(s.agent)
+//@ func (*InternalAgentRunningState).Ready
+//@   requires held(s.agent) && intValid(s.agent)
+//@   modifies s.agent.currentState, s.agent.stateLastModified, s.agent.errorType, mapof(s.agent.events), all(gateImpl.arrived)
+//@   ensures [parks-then-runs] r0 == nil ==> s.agent.currentState == s.agent.RunningState
+//@   ensures [arrives-invoke-ready-gate] gateOf(intInvokeFlow(s.agent).agentReadyGate).arrived <= old(gateOf(intInvokeFlow(s.agent).agentReadyGate).arrived) + 1 && unchanged(gateOf(intInitFlow(s.agent).agentReadyGate).arrived, gateOf(intInitFlow(s.agent).externalAgentsRegisteredGate).arrived)
+//@   ensures [state-stays-valid] intValid(s.agent) && held(s.agent)
+//@ func (*InternalAgentRunningState).ExitError
+//@   requires held(s.agent) && intValid(s.agent)
+//@   modifies s.agent.currentState, s.agent.stateLastModified, s.agent.errorType
+//@   ensures [to-exit-error] r0 == nil && s.agent.currentState == s.agent.ExitErrorState && s.agent.errorType == errorType
+//@   ensures [state-stays-valid] intValid(s.agent)
+//@ func (*InternalAgentInitErrorState).InitError
+//@   modifies nothing
+//@   ensures [repeat-is-noop] r0 == nil
+//@ func (*InternalAgentExitErrorState).ExitError
+//@   modifies nothing
+//@   ensures [repeat-is-noop] r0 == nil
+
+// the agent object: each call equals the row of the current state
+//@ func (*InternalAgent).Register
+//@   modifies s.currentState, s.stateLastModified, mapof(s.events)
+//@   ensures [legal-from-started] old(s.currentState) == s.StartedState && r0 == nil ==> s.currentState == s.RegisteredState && (forall i int :: 0 <= i && i < len(events) ==> events[i] == "INVOKE")
+//@   ensures [invalid-events-change-nothing] old(s.currentState) == s.StartedState && r0 != nil ==> (r0 == errInvalidEventType || r0 == errEventNotSupportedForInternalAgent) && unchanged(s.currentState, gateOf(intInitFlow(s).externalAgentsRegisteredGate).arrived)
+//@   ensures [refused-otherwise] old(s.currentState) != s.StartedState ==> intRefused(s, r0) && (forall k Event :: has(s.events, k) == old(has(s.events, k)))
+//@ func (*InternalAgent).Ready
+//@   modifies s.currentState, s.stateLastModified, s.errorType, mapof(s.events), all(gateImpl.arrived)
+//@   ensures [next-returns-running] r0 == nil ==> s.currentState == s.RunningState
+//@   ensures [legal-only-from-registered-or-running] old(s.currentState) != s.RegisteredState && old(s.currentState) != s.RunningState ==> intRefused(s, r0)
+//@ func (*InternalAgent).InitError
+//@   modifies s.currentState, s.stateLastModified, s.errorType
+//@   ensures [legal-from-registered] old(s.currentState) == s.RegisteredState ==> r0 == nil && s.currentState == s.InitErrorState && s.errorType == errorType
+//@   ensures [repeat-keeps-first] old(s.currentState) == s.InitErrorState ==> r0 == nil && unchanged(s.currentState, s.errorType)
+//@   ensures [refused-otherwise] old(s.currentState) != s.RegisteredState && old(s.currentState) != s.InitErrorState ==> intRefused(s, r0)
+//@ func (*InternalAgent).ExitError
+//@   modifies s.currentState, s.stateLastModified, s.errorType
+//@   ensures [legal-after-register] old(s.currentState) == s.RegisteredState || old(s.currentState) == s.ReadyState || old(s.currentState) == s.RunningState ==> r0 == nil && s.currentState == s.ExitErrorState && s.errorType == errorType
+//@   ensures [repeat-keeps-first] old(s.currentState) == s.ExitErrorState ==> r0 == nil && unchanged(s.currentState, s.errorType)
+//@   ensures [refused-otherwise] old(s.currentState) == s.StartedState || old(s.currentState) == s.InitErrorState ==> intRefused(s, r0)
+//@ func (*InternalAgent).GetState
+//@   modifies nothing
+//@   ensures [current] r0 == s.currentState
+//@ func (*InternalAgent).IsSubscribed
+//@   modifies nothing
+//@   ensures [membership] r0 <==> has(s.events, e)
+//@ func (*InternalAgent).ErrorType
+//@   modifies nothing
+//@   ensures r0 == s.errorType
+
+//@ func NewInternalAgent
+//@   requires isInitFlow(initFlow) && isInvokeFlow(invokeFlow) && flowsDisjoint(initFlow.(*initFlowSynchronizationImpl), invokeFlow.(*invokeFlowSynchronizationImpl))
+//@   modifies nothing
+//@   ensures [fresh-started] r0 != nil && fresh(r0) && r0.currentState == r0.StartedState && r0.Name == name && r0.errorType == ""
+//@   ensures [wired] intWired(r0) && intFlows(r0) && intInitFlow(r0) == initFlow.(*initFlowSynchronizationImpl) && intInvokeFlow(r0) == invokeFlow.(*invokeFlowSynchronizationImpl)
+//@   ensures [no-subscriptions] r0.events != nil && (forall k Event :: !has(r0.events, k))
+
+//@ func (*ExternalAgent).SetState
+//@   requires state == s.StartedState || state == s.RegisteredState || state == s.ReadyState || state == s.RunningState || state == s.InitErrorState || state == s.ExitErrorState || state == s.ShutdownFailedState || state == s.ExitedState || state == s.LaunchErrorState
+//@   modifies s.currentState, s.stateLastModified
+//@   ensures [set] s.currentState == state
+//@ func (*ExternalAgent).SuspendUnsafe
+//@   requires held(s) && extValid(s)
+//@   modifies s.currentState, s.stateLastModified, s.errorType, mapof(s.events)
+//@   ensures held(s) && extValid(s)
+
+//@ func (*InternalAgent).SetState
+//@   requires state == s.StartedState || state == s.RegisteredState || state == s.ReadyState || state == s.RunningState || state == s.InitErrorState || state == s.ExitErrorState
+//@   modifies s.currentState, s.stateLastModified
+//@   ensures [set] s.currentState == state
+//@ func (*InternalAgent).SuspendUnsafe
+//@   requires held(s) && intValid(s)
+//@   modifies s.currentState, s.stateLastModified, s.errorType, mapof(s.events)
+//@   ensures held(s) && intValid(s)
